@@ -105,7 +105,7 @@ func C10(r *drv.Run) {
 	r.BuildWorker()
 	depth, tlen := 2, 3
 	nrand := 1500
-	budget := 2_000_000
+	budget := 250_000
 	if !quick(r) {
 		depth, tlen = 3, 4
 		nrand = 40000
